@@ -142,12 +142,16 @@ def _configs(tier):
                     cfg.append({"kind": "constr", "dim": 2, "mkind": mkind, "ckind": ckind, "hausdorff": haus, "convention": conv})
             cfg.append({"kind": "gauss_constr", "dim": 2, "mkind": mkind, "ckind": ckind, "convention": "plain"})
     cfg.append({"kind": "gauss_constr", "dim": 2, "mkind": "diag", "ckind": "sphere", "convention": "aux"})
+    th = tier == "thorough"
     for kind in ("scalar", "diagonal", "cholesky", "dense"):
         for dim in (1, 2):
+            if kind == "dense" and dim == 2 and not th:
+                continue  # dense 2x2 position-dependent metric: > 20 min per case, thorough tier only
             for conv in ("plain", "aux"):
                 cfg.append({"kind": kind, "dim": dim, "convention": conv})
     cfg.append({"kind": "softabs", "dim": 1, "convention": "plain"})
-    cfg.append({"kind": "softabs", "dim": 1, "convention": "aux"})
+    if th:
+        cfg.append({"kind": "softabs", "dim": 1, "convention": "aux"})
     return cfg
 
 
